@@ -25,7 +25,7 @@ PROPS = {
     "C11": {
         "module": "HqModel.Props.C11",
         "theorems": ["HqModel.C11.c11_fresh", "HqModel.C11.c11_iterate", "HqModel.C11.c11_iterate_step"],
-        "parts": [dict(_PART, tags=["res", "ctr", "next", "uid", "prod"], clauses=["c11."])],
+        "parts": [dict(_PART, tags=["res", "ctr", "next", "uid", "prod", "boot"], clauses=["c11."])],
         "assumptions": [
             "ids are natural numbers in the model (u32 wrap-around of the counters is not what C11 is about)",
             "c11_iterate: no `hq journal prune` between restarts (pruning drops the high-water marks of completed jobs / lost "
@@ -54,7 +54,7 @@ PROPS = {
             "HqModel.C10.c10_emitted_across_restarts", "HqModel.C10.c10_emitted_lives", "HqModel.C10.c10_emitted_lives_restore",
             "HqModel.C10.c10_lives_first",
         ],
-        "parts": [dict(_PART, tags=["res", "trunc", "job", "cnt", "task", "sub", "adj", "core", "queue", "prod"],
+        "parts": [dict(_PART, tags=["res", "trunc", "job", "cnt", "task", "sub", "adj", "core", "queue", "prod", "boot"],
                        clauses=["c10.", "gen.", "c03.restart", "c06.restart", "c07.restart"]),
                   # the writer side: the job-layer model M4 on simulated cluster runs; the compiled model evaluates the side
                   # condition Emit.EmitOk of the c10_emitted_* theorems on the pre-state of every real operation
